@@ -89,3 +89,82 @@ Example C14_example :
             geti 2 T ["098"%byte] = Ok (0%Z, false) /\
             get T ["098"%byte] = Ok NotFound.
 Proof. eexists. split; [vm_compute; reflexivity|]. vm_compute. repeat split. Qed.
+
+(* ------------------------------------------------------------------------------------
+   C14 THROUGH THE BITMAPS (message level, L3).  [encode_trie T] is the protobuf message of
+   the built trie as data (Bits.v: 64-bit words with their rank/select indexes, packed
+   label bitmaps, short-node table, VLenArrays) and [init_vars] is initVars.
+   [mgeti w] (GetIntMsg.v) is GetI8/16/32/64 computed from that message the way the Go code
+   does: GetID over the bitmaps (Msg.mgetid), getLeafIndex = id - Rank64(NodeTypeBM, id), the
+   slice Leaves.Bytes[ith*w : ith*w+w] read directly from the packed buffer of the Leaves
+   VLenArray (a nil Leaves / a slice beyond the buffer are explicit panic outcomes), the
+   shift/or expression.  [mget] (Msg.v) is Get computed from the message (getNode,
+   getLeftChildID, getLeafPrefix, VLenArray.get through the presence bitmap).  The fuel
+   bounds the number of nodes visited; any value from the height of the trie on will do.
+   Proofs in theories/GetIntMsgProofs.v (on top of MsgProofs.v and the L3 refinement). *)
+From Slim Require Import BitmapRank BitmapRank2 Bits Msg MsgProofs GetIntMsg GetIntMsgProofs.
+
+(* every built trie has a message and initVars accepts it: the hypotheses below are satisfiable *)
+Theorem C14_message_exists :
+  forall (ropt : raw_opt) (keys : list key) (vals : option (list (list byte))) (T : trie),
+    build (normalize ropt) keys vals = Ok T ->
+    exists m vs, encode_trie T = Val m /\ init_vars m = Val vs.
+Proof. intros ropt keys vals T. exact (built_message_exists (normalize ropt) keys vals T). Qed.
+Print Assumptions C14_message_exists.
+
+(* the getters computed from the message are the getters of the tree model: for every built
+   trie (any values, any width), every query *)
+Theorem C14_message_getters_are_the_tree_getters :
+  forall (ropt : raw_opt) (keys : list key) (vals : option (list (list byte))) (T : trie)
+         (m : msg) (vs : vars) (w : nat) (q : key) (fuel : nat),
+    build (normalize ropt) keys vals = Ok T -> encode_trie T = Val m -> init_vars m = Val vs ->
+    trie_height T <= fuel ->
+    mgeti w (S fuel) m vs q = geti w T q /\ mget (S fuel) m vs q = get T q.
+Proof. intros ropt keys vals T m vs w q fuel. exact (mgeti_mget_tree (normalize ropt) keys vals T m vs w q fuel). Qed.
+Print Assumptions C14_message_getters_are_the_tree_getters.
+
+(* C14_geti_is_get_then_decode, computed from the message *)
+Theorem C14_message_geti_is_get_then_decode :
+  forall (ropt : raw_opt) (keys : list key) (vls : list (list byte)) (T : trie)
+         (m : msg) (vs : vars) (w : nat) (q : key) (fuel : nat),
+    build (normalize ropt) keys (Some vls) = Ok T -> encode_trie T = Val m -> init_vars m = Val vs ->
+    trie_height T <= fuel ->
+    List.length vls = List.length keys -> Forall (fun v => List.length v = w) vls -> 0 < w ->
+    mgeti w (S fuel) m vs q = mget_then_decode w (S fuel) m vs q /\
+    ((mget (S fuel) m vs q = Ok NotFound /\ mgeti w (S fuel) m vs q = Ok (0%Z, false)) \/
+     (exists i b, i < List.length keys /\ nth_error vls i = Some b /\
+                  mget (S fuel) m vs q = Ok (Found (Some b)) /\
+                  mgeti w (S fuel) m vs q = Ok (le_signed w b, true))).
+Proof. intros ropt keys vls T m vs w q fuel. exact (mgeti_agrees (normalize ropt) keys vls T m vs w q fuel). Qed.
+Print Assumptions C14_message_geti_is_get_then_decode.
+
+(* the property, computed from the message: values are numbers of the integer type encoded
+   with the matching codec; for every query the typed getter run over the bitmaps returns the
+   found flag of Get run over the bitmaps and, on a hit, the number whose encoding Get found *)
+Theorem C14_message_level :
+  forall (c : Encoders.icodec) (ropt : raw_opt) (keys : list key) (zs : list Z) (T : trie)
+         (m : msg) (vs : vars) (q : key) (fuel : nat),
+    Encoders.ic_signed c = true -> Encoders.ic_big c = false -> 0 < Encoders.ic_width c ->
+    Forall (Encoders.in_range true (Encoders.ic_width c)) zs -> List.length zs = List.length keys ->
+    build (normalize ropt) keys (Some (map (Encoders.int_encode c) zs)) = Ok T ->
+    encode_trie T = Val m -> init_vars m = Val vs -> trie_height T <= fuel ->
+    (mget (S fuel) m vs q = Ok NotFound /\ mgeti (Encoders.ic_width c) (S fuel) m vs q = Ok (0%Z, false)) \/
+    (exists i z, i < List.length keys /\ nth_error zs i = Some z /\
+                 mget (S fuel) m vs q = Ok (Found (Some (Encoders.int_encode c z))) /\
+                 Encoders.int_decode c (Encoders.int_encode c z) = Encoders.DOk (Encoders.ic_width c, z) /\
+                 mgeti (Encoders.ic_width c) (S fuel) m vs q = Ok (z, true)).
+Proof. intros c ropt keys zs T m vs q fuel. exact (mgeti_same_number c (normalize ropt) keys zs T m vs q fuel). Qed.
+Print Assumptions C14_message_level.
+
+(* non-vacuity: the int16 example above, the getters computed from the message *)
+Example C14_message_example :
+  exists T m vs, build (normalize ex_opt) ex_keys (Some (map (Encoders.int_encode ex_c16) ex_zs)) = Ok T /\
+            encode_trie T = Val m /\ init_vars m = Val vs /\ trie_height T <= 3 /\
+            option_map v_bytes (m_leaves m) = Some ["255"; "127"; "000"; "128"; "255"; "255"]%byte /\   (* breadth-first leaf order: "c", "a", "abc" *)
+            mgeti 2 4 m vs ["097"%byte] = Ok ((-32768)%Z, true) /\
+            mgeti 2 4 m vs ["097"%byte; "109"%byte] = Ok ((-1)%Z, true) /\
+            mget 4 m vs ["097"%byte; "109"%byte] = Ok (Found (Some ["255"%byte; "255"%byte])) /\
+            mgeti 2 4 m vs ["099"%byte] = Ok (32767%Z, true) /\
+            mgeti 2 4 m vs ["098"%byte] = Ok (0%Z, false) /\
+            mget 4 m vs ["098"%byte] = Ok NotFound.
+Proof. eexists. eexists. eexists. split; [vm_compute; reflexivity|]. split; [vm_compute; reflexivity|]. split; [vm_compute; reflexivity|]. vm_compute. repeat split; apply le_n. Qed.
